@@ -450,8 +450,8 @@ class Rig:
         self.tx = []
         f = self.net[i]
         self.net.insert(i + 1, [f[0], f[1], f[2], f[3]])
-        if getattr(self, "hold_dups", False):
-            self.held.add(id(self.net[i + 1]))
+        if id(f) in self.late:
+            self.late[id(self.net[i + 1])] = self.net[i + 1]        # the copy of a straggler is a straggler (TSM.tla Dup copies `late`)
         self.log("Dup", i + 1)
 
     def delay(self, i):
@@ -520,9 +520,9 @@ class Rig:
         silence_from: every frame with number >= this is dropped."""
         faults = dict(faults or {})
         self.applied = {}
-        # order 'late-dup': the copy a duplication makes is a straggler -- it is delivered right after the first segment of
+        # order 'late-dup': a straggler (a frame the medium held back, now due) is delivered right after the first segment of
         # the answer has reached the requester (or when nothing else is left to do at that instant)
-        self.hold_dups, self.held, self.ca_seen = False, set(), False
+        self.ca_seen = False
         self.submit()
         # wall-clock budget for the whole run (a transfer that sends the same segments for ever gets slower with every
         # step): generous: a step normally takes 1..3 ms, 600 segments go through in about a second
